@@ -272,7 +272,8 @@ Section Recon.
   Lemma specific_roundtrip w : wire_wf as_css w ->
     sort_nmap (legacy_db as_css (from_wire_hostdb w)) = wi_specific w.
   Proof.
-    intros W. destruct W. rewrite <- (sort_nmap_id (wi_specific w)) at 2 by assumption.
+    intros W. destruct W.
+    transitivity (sort_nmap (wi_specific w)); [|apply sort_nmap_id; assumption].
     apply sort_nmap_perm; [|apply legacy_db_nodup].
     apply getn_ext_perm; try assumption; [apply legacy_db_nodup|apply legacy_db_nonempty|].
     intros k. rewrite getn_legacy_db by (apply from_wire_hostdb_wf; assumption).
@@ -287,14 +288,19 @@ Section Recon.
     to_wire as_css (use_tags build_list tags (from_wire_blocker w)) (from_wire_cosmetic w) = w.
   Proof.
     intros W T. pose proof (specific_roundtrip w W) as SP. destruct W.
-    unfold tagged_consistent in T.
-    destruct w. unfold to_wire, use_tags, from_wire_blocker, from_wire_cosmetic. cbn in *.
+    unfold tagged_consistent in T. unfold to_wire.
+    cbn [use_tags from_wire_blocker from_wire_cosmetic
+         b_csp b_exceptions b_importants b_redirects b_removeparam b_filters_tagged b_filters
+         b_generic_hide b_tags_enabled b_tagged_all b_opt
+         c_simple_class c_simple_id c_complex_class c_complex_id c_specific c_misc].
+    rewrite SP. cbn [from_wire_hostdb h_proc h_proc_exc].
     rewrite !wlist_roundtrip by assumption.
     rewrite map_roundtrip_wrules by assumption.
-    rewrite <- T. rewrite SP.
+    rewrite <- T.
     rewrite !sort_set_id by assumption. rewrite !sort_smap_id by assumption.
     rewrite !sort_nmap_id by assumption.
-    subst. reflexivity.
+    rewrite <- ww_resources, <- ww_scriptlets.
+    destruct w. reflexivity.
   Qed.
 End Recon.
 
@@ -349,3 +355,79 @@ Section Image.
     rewrite map_roundtrip_rules by exact MO. rewrite <- FT. reflexivity.
   Qed.
 End Image.
+
+(* ------------------------------------------------------------------ examples: the hypotheses are satisfiable *)
+Ltac nodup_tac :=
+  repeat (constructor; [cbn; intuition (try discriminate; try lia)|]); try constructor.
+
+Definition ex_json : str := bs "{style .z}".
+Definition ex_css : str -> option (str * str) := css_table [(ex_json, Some (bs ".z", bs "color: red"))].
+Definition ex_rule (id : N) (mask : N) (pat : string) (mo : option str) : rule :=
+  Build_rule mask (FSimple (bs pat)) None None mo (Some (bs "ads.net")) None (Some (bs pat)) id None None.
+Definition ex_blocker1 : blocker :=
+  Build_blocker [(7, [ex_rule 1 M_IS_CSP "c" (Some (bs "img-src *"))])] [] []
+    [(7, [ex_rule 2 M_IS_REDIRECT "r" (Some (bs "noop.js"))])] [(1, [ex_rule 9 M_IS_REMOVEPARAM "p" (Some (bs "utm"))])] []
+    [(5, [ex_rule 3 1 "a" None; ex_rule 4 1 "b" None]); (3, [ex_rule 5 1 "d" None]); (0, [])] [] [bs "t1"] [ex_rule 6 1 "t" None] true.
+Definition ex_blocker2 : blocker :=
+  Build_blocker [(7, [ex_rule 1 M_IS_CSP "c" (Some (bs "img-src *"))])] [] []
+    [(7, [ex_rule 2 M_IS_REDIRECT "r" (Some (bs "noop.js"))])] [] []
+    [(0, []); (5, [ex_rule 3 1 "a" None; ex_rule 4 1 "b" None]); (3, [ex_rule 5 1 "d" None])] [] [] [ex_rule 6 1 "t" None] true.
+Definition ex_hostdb1 : hostdb :=
+  Build_hostdb [(9, [bs ".x"; bs ".y"]); (4, [bs ".q"])] [(4, [bs ".u"])] [(9, [(bs "foo, 1", 0)])] [] [(4, [ex_json; bs "{other}"])] [].
+Definition ex_hostdb2 : hostdb :=
+  Build_hostdb [(4, [bs ".q"]); (9, [bs ".x"; bs ".y"])] [(4, [bs ".u"])] [(9, [(bs "foo, 1", 0)])] [] [(4, [ex_json; bs "{other}"])] [].
+Definition ex_cosmetic1 : cosmetic :=
+  Build_cosmetic [bs "b"; bs "a"; bs "ab"] [bs "id"] [(bs "k2", [bs ".k2 > a"]); (bs "k1", [bs ".k1 b"])] [] ex_hostdb1 [bs "a[href]"].
+Definition ex_cosmetic2 : cosmetic :=
+  Build_cosmetic [bs "ab"; bs "b"; bs "a"] [bs "id"] [(bs "k1", [bs ".k1 b"]); (bs "k2", [bs ".k2 > a"])] [] ex_hostdb2 [bs "a[href]"].
+
+Example ex_blocker_wf : blocker_wf ex_blocker1.
+Proof. constructor; cbn; nodup_tac. Qed.
+Example ex_cosmetic_wf : cosmetic_wf ex_cosmetic1.
+Proof. constructor; [| | | |constructor|]; cbn; nodup_tac. Qed.
+Example ex_blocker_perm : blocker_perm ex_blocker1 ex_blocker2.
+Proof.
+  constructor; try reflexivity.
+  exact (Permutation_sym (Permutation_cons_append
+           [(5, [ex_rule 3 1 "a" None; ex_rule 4 1 "b" None]); (3, [ex_rule 5 1 "d" None])] (0, @nil rule))).
+Qed.
+Example ex_cosmetic_perm : cosmetic_perm ex_cosmetic1 ex_cosmetic2.
+Proof.
+  constructor; try reflexivity.
+  - exact (Permutation_sym (Permutation_cons_append [bs "b"; bs "a"] (bs "ab"))).
+  - exact (perm_swap _ _ _).
+  - constructor; try reflexivity. exact (perm_swap _ _ _).
+Qed.
+(* ... and the conclusion is non-trivial: the wire value has six non-empty containers *)
+Example ex_wire_equal :
+  to_wire ex_css ex_blocker1 ex_cosmetic1 = to_wire ex_css ex_blocker2 ex_cosmetic2 /\
+  map fst (wi_filters (to_wire ex_css ex_blocker1 ex_cosmetic1)) = [0; 3; 5] /\
+  wi_simple_class (to_wire ex_css ex_blocker1 ex_cosmetic1) = [bs "a"; bs "ab"; bs "b"] /\
+  getn 4 (wi_specific (to_wire ex_css ex_blocker1 ex_cosmetic1)) =
+    [LHide (bs ".q"); LUnhide (bs ".u"); LStyle (bs ".z") (bs "color: red")].
+Proof. vm_compute. repeat split; reflexivity. Qed.
+
+(* reserialize_fixpoint on the example: no tags enabled, filters_tagged empty *)
+Example ex_fixpoint :
+  let w := to_wire ex_css ex_blocker1 ex_cosmetic1 in
+  to_wire ex_css (use_tags (fun _ _ => []) [] (from_wire_blocker w)) (from_wire_cosmetic w) = w.
+Proof. vm_compute. reflexivity. Qed.
+
+(* a wire value outside the image on which re-serialization is not the identity: a bin whose
+   entries are not grouped by category (the decoder accepts it; C10) *)
+Example ex_not_fixpoint :
+  let w := Build_wire [] [] [] [] [] [] [] [] true [] [] [] [] [] [(4, [LUnhide (bs ".u"); LHide (bs ".q")])] [] [] [] [] in
+  wi_specific (to_wire ex_css (use_tags (fun _ _ => []) [] (from_wire_blocker w)) (from_wire_cosmetic w))
+    = [(4, [LHide (bs ".q"); LUnhide (bs ".u")])].
+Proof. vm_compute. reflexivity. Qed.
+
+(* ------------------------------------------------------------------ translator ties *)
+Lemma wire_field_order w : map fst (wire_fields w) = WIRE_FIELDS.
+Proof. reflexivity. Qed.
+Lemma wire_rule_field_order w : map fst (wrule_fields w) = WIRE_RULE_FIELDS.
+Proof. reflexivity. Qed.
+Lemma legacy_variant_order : legacy_variant_names = LEGACY_VARIANTS /\
+  FILTER_PART_VARIANTS = ["Empty"; "Simple"; "AnyOf"]%string.
+Proof. split; reflexivity. Qed.
+Lemma header_written : forall w, firstn 5 (serialize_wire w) = DAT_MAGIC ++ [V0_VERSION_BYTE].
+Proof. reflexivity. Qed.
